@@ -65,6 +65,17 @@ type cfCase struct {
 	WPlan *sim.WritePlan   `json:"wplan,omitempty"`
 }
 
+// Error identities of injected failures: the simulator's own sentinel, and values real readers and writers return.
+var readErrKinds = []string{"", "unexpected-eof", "closed-pipe"}
+var writeErrKinds = []string{"", "short-write", "closed-pipe"}
+
+func errKindName(k string) string {
+	if k == "" {
+		return "sim-sentinel"
+	}
+	return k
+}
+
 var writeProbes = []drive.WOp{{Op: "int", V: model.NewInt(7)}, {Op: "finish"}, {Op: "finish"}}
 
 func (s chunkfault) Run(c *Ctx, i int) {
@@ -186,7 +197,7 @@ func (s chunkfault) readSide(c *Ctx, r *prng.Rand, data []byte, marks []render.M
 	}
 	// R2: a read failure at every byte.
 	for _, k := range offsets {
-		for v := 0; v < 4; v++ {
+		for v := 0; v < 12; v++ {
 			var p sim.ReadPlan
 			switch (k + v) % 3 {
 			case 0:
@@ -196,7 +207,7 @@ func (s chunkfault) readSide(c *Ctx, r *prng.Rand, data []byte, marks []render.M
 			default:
 				p = planBytes()
 			}
-			p.Fault = &sim.ReadFault{At: k, Sticky: v&1 == 1, WithData: v&2 == 2}
+			p.Fault = &sim.ReadFault{At: k, Sticky: v&1 == 1, WithData: v&2 == 2, ErrKind: readErrKinds[v/4]}
 			rc := drive.ReadCase{Data: data, Plan: p, Prog: prog}
 			oc := drive.RunRead(rc)
 			c.Steps += int64(oc.Reads)
@@ -204,6 +215,7 @@ func (s chunkfault) readSide(c *Ctx, r *prng.Rand, data []byte, marks []render.M
 			kind := map[bool]string{true: "sticky", false: "transient"}[p.Fault.Sticky]
 			if oc.FaultFired {
 				c.Count("fault.read-"+kind+".fired", 1)
+				c.Count("fault.read-error-identity."+errKindName(p.Fault.ErrKind)+".fired", 1)
 				c.DistinctU(hashRead(data, oc.SrcHash^uint64(k*4+v+1)*0x9E3779B97F4A7C15, prog))
 			} else {
 				c.Count("fault.read-"+kind+".armed-not-fired", 1)
@@ -387,7 +399,7 @@ func (s chunkfault) writeSide(c *Ctx, r *prng.Rand, vals []*model.Value) {
 		}
 		for _, j := range calls {
 			for v := 0; v < 4; v++ {
-				plan := sim.WritePlan{Fault: &sim.WriteFault{Call: j, Sticky: v&1 == 1}}
+				plan := sim.WritePlan{Fault: &sim.WriteFault{Call: j, Sticky: v&1 == 1, ErrKind: writeErrKinds[(j+v)%3]}}
 				if v&2 == 2 {
 					plan.Fault.Short = 1 + r.Intn(3)
 				}
